@@ -38,7 +38,8 @@ class Task final {
 
   Task() noexcept = default;
   ~Task() noexcept {
-    if (Valid()) {
+    // a Task that already completed (co_await Await(task)) only has its result to release
+    if (Valid() && !Ready()) {
       std::move(*this).Cancel();
     }
   }
